@@ -56,6 +56,8 @@ pub struct MemOutput {
     pub fault_fired: bool,
     pub set_len_calls: usize,
     pub flushes: usize,
+    /// shared view of `poll_writes` (readable while the output is owned by a CloneOutput)
+    pub counter: Arc<std::sync::atomic::AtomicUsize>,
 }
 
 impl MemOutput {
@@ -74,6 +76,7 @@ impl MemOutput {
             fault_fired: false,
             set_len_calls: 0,
             flushes: 0,
+            counter: Arc::new(std::sync::atomic::AtomicUsize::new(0)),
         }
     }
     pub fn with_faults(mut self, f: Vec<WriteFault>) -> Self {
@@ -125,6 +128,7 @@ impl AsyncWrite for MemOutput {
             self.pending_done = false;
         }
         self.poll_writes += 1;
+        self.counter.store(self.poll_writes, std::sync::atomic::Ordering::Relaxed);
         match fault {
             Some(WriteFault::Cut { prefix, .. }) => {
                 self.fault_fired = true;
